@@ -51,7 +51,7 @@ def run(ctx):
         else:
             hist = persist.random_history(rng, uni, rng.randrange(4, 14))
         if hist:
-            cases.append({"uni": uni, "hist": hist, "seed": ctx.seed, "sampled": True})
+            cases.append({"uni": uni, "hist": hist, "seed": 1000 + ctx.seed, "sampled": True})
     for idx, case in enumerate(cases):
         case["id"] = idx
     samples = []
